@@ -225,11 +225,24 @@ func Harness_C18_concurrent() {
 		return m
 	}
 	m1, m2 := mk("first", "echo"), mk("second", "slow")
+	// the slow caller's record may be a batch whose call is preceded by a
+	// notification (the bridge's internal ids must not depend on positions)
+	notes := 0
+	body2 := m2.raw
+	if nondetBool("slow-batch-with-leading-notification") {
+		note := tokObject([]string{"jsonrpc", "method", "params"}, []json.RawMessage{tokString("2.0"), tokString("echo"), tokArray(nil)})
+		body2 = tokArray([]json.RawMessage{note, m2.raw})
+		notes = 1
+	}
 	w1, w2 := &verifWriter{}, &verifWriter{}
 	serve := func(w *verifWriter, m *verifBMember) {
 		hdr := http.Header{}
 		hdr.Set("Content-Type", "application/json")
-		b.ServeHTTP(w, &http.Request{Method: "POST", Header: hdr, Body: &verifBody{data: m.raw}})
+		body := m.raw
+		if m == m2 {
+			body = body2
+		}
+		b.ServeHTTP(w, &http.Request{Method: "POST", Header: hdr, Body: &verifBody{data: body}})
 	}
 	done := 0
 	// the slow caller is in flight while the fast one is served completely
@@ -244,7 +257,7 @@ func Harness_C18_concurrent() {
 	quiesce()
 	close(gate)
 	quiesce()
-	vassert(done == 2 && calls == 2, "both callers are served, each handler once")
+	vassert(done == 2 && calls == 2+notes, "both callers are served, each handler once")
 	verifCheckBridgeBody(w1, []*verifBMember{m1})
 	verifCheckBridgeBody(w2, []*verifBMember{m2})
 	reach("concurrent")
